@@ -80,7 +80,18 @@ class Ctx:
                 if budget_violation and 'loop budget' in (p.msg or ''):
                     # a loop whose trip count is still solver-controlled after the budget: unbounded in the input size
                     self.obligations += 1
-                    m = e.model_of(p)
+                    # prefer a witness whose numeric inputs are far beyond the request size (convincing natively)
+                    m = None
+                    import z3 as _z3
+                    nums = {}
+                    for c in p.pc:
+                        for v in _vars_of(c):
+                            if _z3.is_bv(v) and v.size() == 64: nums[v.decl().name()] = v
+                    for thr in (1 << 40, 1 << 24):
+                        try: m = e.model_of(p, extra=[_z3.And(_z3.UGT(v, thr), _z3.ULT(v, 1 << 62)) for v in nums.values()]) if nums else None
+                        except Unmodelled: m = None
+                        if m is not None: break
+                    if m is None: m = e.model_of(p)
                     wit = {'budget': p.msg, 'where': p.where, 'inputs': self._model_inputs(m)}
                     rp = p.notes.get('replay')
                     if p.notes.get('replay_fn') and m is not None:
@@ -257,6 +268,20 @@ class Ctx:
 
 
 _PAR = None
+
+
+def _vars_of(expr, seen=None):
+    import z3
+    seen = set() if seen is None else seen
+    out = []
+    stack = [expr]
+    while stack:
+        x = stack.pop()
+        if x.get_id() in seen: continue
+        seen.add(x.get_id())
+        if z3.is_const(x) and x.decl().kind() == z3.Z3_OP_UNINTERPRETED: out.append(x)
+        else: stack.extend(x.children())
+    return out
 
 
 def _par_entry(job):
